@@ -113,14 +113,15 @@ def run(ch: Choices, opts: Dict[str, Any]) -> Dict[str, Any]:
         epochs = 1 + (0 if "reinit" in avoid else ch.weighted([2, 2, 2, 1, 1] if deep else [3, 3, 1], "epochs"))
         ep = []
         for e in range(epochs):
-            unit = 1 + ch.draw(4, "unit")
+            # (now and then an application without any qubit: classical work only)
+            unit = 0 if (not calm and ch.flag(1, 10, "unit0")) else 1 + ch.draw(4, "unit")
             n_subs = 1 + ch.draw(8 if deep else 3, "nsubs")
             g = Gen(ch, unit, plant=ch.flag(1, 3, "plant"), weights=BIAS)
             progs = []
             for k in range(n_subs):
                 body = g.program(first=(k == 0))
                 npairs = 0
-                if k == 0 and ch.flag(1, 2, "epr"):
+                if k == 0 and unit > 0 and ch.flag(1, 2, "epr"):
                     npairs = 1 + ch.draw(unit, "npairs")
                     busy = ch.draw(npairs + 1, "busy") if ch.flag(1, 2, "busyflag") else 0
                     blk = epr_block(a, npairs, GHOST, a, 20, busy=busy, filler=ch.draw(10, "filler") if busy else 0)
